@@ -112,6 +112,9 @@ package tax
 //@   ensures cd == nil ==> r == other
 //@   ensures cd != nil && other == nil ==> r == cd
 //@   ensures [other] other != nil ==> other.CopyTax == old(other.CopyTax) || other == cd
+//@   ensures [flags] cd != nil && other != nil && cd.Schema == other.Schema ==> r != nil && fresh(r) && r.Schema == old(cd.Schema) && (r.ReasonRequired <==> old(cd.ReasonRequired) || other.ReasonRequired) && (r.CopyTax <==> old(cd.CopyTax) || other.CopyTax)
+//@   ensures [lists] cd != nil && other != nil && cd.Schema == other.Schema ==> len(r.Types) == old(len(cd.Types)) + len(other.Types) && len(r.Extensions) == old(len(cd.Extensions)) + len(other.Extensions) && len(r.Stamps) == old(len(cd.Stamps)) + len(other.Stamps)
+//@   ensures [mismatch] cd != nil && other != nil && cd.Schema != other.Schema ==> r == cd
 //
 // ---- C20: tax summaries combine component-wise
 //
